@@ -85,6 +85,9 @@ def register_qmodule(module_cls):
 
 
 def quantize_module(module, **kwargs):
+    if isinstance(module, QModuleMixin):
+        # Quantized modules inherit from the modules they replace: they must not be quantized again
+        return None
     for cls in _QMODULE_TABLE:
         if isinstance(module, cls):
             qcls, qparams = _QMODULE_TABLE[cls]
